@@ -145,7 +145,7 @@ class Gen:
             "mode": "flow",
             "cid": self._newcid(),
             "ch": ch,
-            "cw": r.randint(2, 5),
+            "cw": r.randint(2, 4),
             "hs": r.randint(0, 2),
             "vs": r.randint(0, 1),
             "align": r.choice(["left", "center", "right"]),
